@@ -40,7 +40,7 @@ theorem parse_ex_comma {F : Fl} (e : Ex) (hok : e.ok F false = true) (ws1 : List
   have hnume := numbered_prefix e.toks _ 0 hnum
   have hnumK := numbered_append ws1 [k] _ (numbered_append e.toks _ 0 hnum)
   have hkcol : k.col = 0 + e.toks.length + ws1.length := hnumK.1
-  obtain ⟨st1, E, re, cb, hloop, hinv, hgs, hcg, _, _, _, href⟩ :=
+  obtain ⟨st1, E, re, cb, hloop, hinv, hgs, hcg, _, _, _, hcnt, href⟩ :=
     (ex_ok e false hok).1 PState.init none none 0 openB_init (.top rfl rfl) (by intro i nd h; simp [PState.init] at h) rfl
       rfl (Or.inl rfl) 0 hnume (ws1 ++ [k])
   obtain ⟨st1', hloopW, hinv', hn1', hgs1', hcg1'⟩ := trivia_runU ws1 st1 [k] hinv hw1
